@@ -646,3 +646,16 @@ PROPS["C14"]["suites"]["drift"] = {"kind": "srv", "args": {"mode": "drift"}, "ca
 
 # C13: no reply shape of the modulator may make the client engine panic (the server's panic hook ends the process): s2m suite's engine-panic oracle
 PROPS["C13"]["suites"]["s2m"] = dict(S2M_SUITE, oracle_tags=["C13"])
+
+
+# C16: the ids of requests that are live at the same time differ (generator shape read from the source; any window of fewer than
+# 2^32-1 consecutive ids is injective); pooled client: a hung handshake ends in an error (s2m suite)
+PROPS["C16"]["theorems"] = list(PROPS["C16"]["theorems"]) + ["Narwhal.Theorems.C16Ids"]
+PROPS["C16"]["expect_theorems"] = list(PROPS["C16"]["expect_theorems"]) + ["Narwhal.Client.C16_ids_nonzero", "Narwhal.Client.C16_ids_distinct_in_window",
+                                                                       "Narwhal.Client.client_ids_table_ok"]
+PROPS["C16"]["assumptions"] = ["fewer than 2^32-1 requests are issued on one client during the lifetime of a request (then live ids are distinct: C16_ids_distinct_in_window)"]
+PROPS["C16"]["level_note"] = PROPS["C16"]["level_note"].replace("Correlation ids of simultaneously live requests are assumed distinct (the engine's id counter wraps after 2^32-1 ids).",
+    "Correlation ids of simultaneously live requests are distinct because the generator steps a 32-bit counter (shape read from the source, C16Ids.lean).")
+# C02 / C20 also rest on the lat suite (deliveries through the router under slow clean-ups; shutdown with requests in flight)
+PROPS["C02"]["suites"]["lat"] = dict(LAT_SUITE, oracle_tags=["C02"])
+PROPS["C20"]["suites"]["lat"] = dict(LAT_SUITE, oracle_tags=["C20"])
